@@ -32,6 +32,7 @@ type persState struct {
 	keys  map[string]refdemon.Keys
 	metas map[string]refdemon.Meta
 	cur   map[string]string // agent symbol -> meta symbol last sent
+	alt   map[string]refdemon.Keys // key material of a refresh that is in flight
 	req   uint32
 	tr    *Trace
 	n     int
@@ -139,7 +140,11 @@ func (s *persState) restoreView() map[string]any {
 		sy := symOf(int(v))
 		meta := "?"
 		for _, ms := range []string{"m1", "m2"} {
-			if diff := storedMatches(a, s.metas[ms], s.keys[sy], s.extIP); diff == "" {
+			diff := storedMatches(a, s.metas[ms], s.keys[sy], s.extIP)
+			if ak, ok := s.alt[sy]; ok && diff == "key" {
+				diff = storedMatches(a, s.metas[ms], ak, s.extIP)
+			}
+			if diff == "" {
 				meta = ms
 			} else if meta == "?" && s.cur[sy] == ms {
 				meta = "?" + ms + ":" + diff
@@ -202,7 +207,7 @@ func RunPersist(behs [][]Step, tr *Trace, env Env, sum *Summary) {
 			defer w.Close()
 			defer func() { verifhook.Hook = nil }()
 			rng := rand.New(rand.NewSource(env.Seed + int64(bi)*1000003))
-			s := &persState{w: w, ids: map[string]uint32{}, sym: map[uint32]string{}, keys: map[string]refdemon.Keys{}, metas: map[string]refdemon.Meta{}, cur: map[string]string{}, req: 0xA000, tr: tr, extIP: "192.0.2.10"}
+			s := &persState{w: w, ids: map[string]uint32{}, sym: map[uint32]string{}, keys: map[string]refdemon.Keys{}, metas: map[string]refdemon.Meta{}, cur: map[string]string{}, alt: map[string]refdemon.Keys{}, req: 0xA000, tr: tr, extIP: "192.0.2.10"}
 			for i, sy := range []string{"a1", "a2", "a3"} {
 				id := uint32(rng.Int63n(0x7ffffff0)) + 2
 				if sy == "a3" && rng.Intn(2) == 0 {
@@ -242,9 +247,14 @@ func RunPersist(behs [][]Step, tr *Trace, env Env, sum *Summary) {
 					pk.Head.Event, pk.Head.User, pk.Body.SubEvent = packager.Type.Session.Type, "neo", packager.Type.Session.Input
 					pk.Body.Info = map[string]any{"DemonID": ag.NameID, "CommandID": "100", "TaskID": fmt.Sprintf("%08X", s.req), "CommandLine": "checkin"}
 					guarded(func() { w.TS.DispatchEvent(pk) }, 5*time.Second)
+					// the refresh also carries fresh key material (an agent may re-key): it must be what a restart restores
 					k := s.keys[a]
-					cb := append(append(append([]byte{}, k.Key...), k.IV...), refdemon.MetaBody(s.ids[a], s.metas[m])...)
+					nk := world.KeysFor(env.Seed+int64(bi)*31+int64(si), 40+si, false)
+					cb := append(append(append([]byte{}, nk.Key...), nk.IV...), refdemon.MetaBody(s.ids[a], s.metas[m])...)
+					s.alt[a] = nk
 					r = w.Request(refdemon.Packages(s.ids[a], k, []refdemon.Sub{{Cmd: refdemon.CmdCheckin, Req: s.req, Body: cb}}))
+					delete(s.alt, a)
+					s.keys[a] = nk
 				case "ConnectNew":
 					s.cur[b] = m
 					r = connect(a, b, m)
